@@ -5,7 +5,9 @@ import (
 	"go/constant"
 	"go/token"
 	"go/types"
+	"os"
 	"strings"
+	"time"
 
 	"golang.org/x/tools/go/ssa"
 
@@ -69,7 +71,22 @@ func builtinCall(in ssa.Instruction, name string) (*ssa.Call, bool) {
 // successReturns lists the returns of fn whose last result (an error) is nil or
 // may be nil. A return of a value that the dominating branch has just tested to
 // be non-nil is an error return.
+var successReturnsMemo = map[*ssa.Function][]core.ReturnSite{}
+
 func successReturns(fn *ssa.Function) []core.ReturnSite {
+	if out, ok := successReturnsMemo[fn]; ok {
+		return out
+	}
+	t0 := time.Now()
+	out := successReturnsUncached(fn)
+	if d := time.Since(t0); d > time.Second && os.Getenv("WHARFCHECK_SLOW") != "" {
+		fmt.Fprintf(os.Stderr, "slow successReturns %s %v\n", core.FnName(fn), d)
+	}
+	successReturnsMemo[fn] = out
+	return out
+}
+
+func successReturnsUncached(fn *ssa.Function) []core.ReturnSite {
 	var out []core.ReturnSite
 	res := fn.Signature.Results()
 	if res.Len() == 0 || !isErrorType(res.At(res.Len()-1).Type()) {
@@ -83,7 +100,7 @@ func successReturns(fn *ssa.Function) []core.ReturnSite {
 			continue
 		}
 		nilPossible, known := core.MayBeNil(rs.Val)
-		if known && !nilPossible {
+		if known && !nilPossible && !wrapsPossiblyNil(rs.Val) {
 			continue
 		}
 		if !core.IsNilConst(rs.Val) && guardedNonNil(rs.Val, rs.Ret) {
@@ -92,6 +109,33 @@ func successReturns(fn *ssa.Function) []core.ReturnSite {
 		out = append(out, rs)
 	}
 	return out
+}
+
+// wrapsPossiblyNil: v is (or may be) the result of one of pkg/errors' nil-preserving wrappers applied to
+// an error that no dominating branch has shown to be non-nil: `return errors.WithStack(f())` succeeds
+// whenever f does.
+func wrapsPossiblyNil(v ssa.Value) bool {
+	for _, o := range core.Origins(v) {
+		cl, ok := o.(*ssa.Call)
+		if !ok || len(cl.Call.Args) == 0 {
+			continue
+		}
+		if !isNilPreservingWrapper(cl) {
+			continue
+		}
+		arg := core.StoredHere(cl.Call.Args[0])
+		if core.IsNilConst(arg) {
+			return true
+		}
+		if guardedNonNil(arg, cl) || guardedNonNil(cl.Call.Args[0], cl) {
+			continue
+		}
+		if np, known := core.MayBeNil(arg); known && !np && !wrapsPossiblyNil(arg) {
+			continue
+		}
+		return true
+	}
+	return false
 }
 
 func isErrorType(t types.Type) bool {
@@ -514,6 +558,10 @@ func constantInt64(v constant.Value) (int64, bool) {
 
 // isResultOf: v is (a copy of, or a merge that includes) the error result of call.
 func isResultOf(v ssa.Value, call *ssa.Call) bool {
+	return isResultOfDepth(v, call, 3)
+}
+
+func isResultOfDepth(v ssa.Value, call *ssa.Call, depth int) bool {
 	for _, o := range core.Origins(v) {
 		if o == ssa.Value(call) {
 			return true
@@ -521,6 +569,21 @@ func isResultOf(v ssa.Value, call *ssa.Call) bool {
 		if ex, ok := o.(*ssa.Extract); ok && ex.Tuple == ssa.Value(call) && ex.Index == call.Call.Signature().Results().Len()-1 {
 			return true
 		}
+		// errors.WithStack(x) and its siblings are nil exactly when x is: the wrapped value stands for x
+		if w, ok := o.(*ssa.Call); ok && depth > 0 && w != call && len(w.Call.Args) > 0 && isNilPreservingWrapper(w) {
+			if isResultOfDepth(core.StoredHere(w.Call.Args[0]), call, depth-1) {
+				return true
+			}
+		}
+	}
+	return false
+}
+
+func isNilPreservingWrapper(cl *ssa.Call) bool {
+	switch core.CalleeName(cl) {
+	case "github.com/pkg/errors.WithStack", "github.com/pkg/errors.Wrap", "github.com/pkg/errors.Wrapf",
+		"github.com/pkg/errors.WithMessage", "github.com/pkg/errors.WithMessagef":
+		return true
 	}
 	return false
 }
@@ -887,4 +950,303 @@ func ruleNoFollow(c *core.Ctx, rule string, pkgSuffixes ...string) {
 	}
 	c.Floor(rule, "functions that change a tree, in the packages scanned", nMutFn, 3)
 	c.Stats[rule+".functions_scanned"] = nFn
+}
+
+// ---- error discipline -----------------------------------------------------------------------------
+
+// layerCallee reports whether the callee of c belongs to the storage / wire / bowl layer whose errors
+// must not be dropped, with a short name for the report.
+func layerCallee(c ssa.CallInstruction) (string, bool) {
+	cc := c.Common()
+	n := core.CalleeName(c)
+	if cc.IsInvoke() {
+		tn := core.TypeName(cc.Value.Type())
+		m := cc.Method.Name()
+		switch {
+		case strings.HasSuffix(tn, "lake.Pool") || strings.HasSuffix(tn, "lake.WritablePool"):
+			if m != "Close" {
+				return tn + "." + m, true
+			}
+		case strings.HasSuffix(tn, "pwr/bowl.Bowl") || strings.HasSuffix(tn, "pwr/bowl.EntryWriter"):
+			if m != "Close" {
+				return tn + "." + m, true
+			}
+		case strings.HasSuffix(tn, "savior.Source") || strings.HasSuffix(tn, "savior.SeekSource"):
+			if m == "Resume" || m == "Read" || m == "ReadByte" {
+				return tn + "." + m, true
+			}
+		case strings.HasSuffix(tn, "overlay.OverlayWriter"):
+			if m != "Close" {
+				return tn + "." + m, true
+			}
+		}
+		return "", false
+	}
+	switch {
+	case strings.HasPrefix(n, "(*wire.ReadContext).") || strings.HasPrefix(n, "(*wire.WriteContext)."):
+		if !strings.HasSuffix(n, ".Close") {
+			return n, true
+		}
+	case n == "ctxcopy.Do" || n == "ctxcopy.DoBuffer":
+		// (the io.Copy family is left out on purpose: draining and best-effort padding - wsync's lenient
+		// ApplySingleFull - drop its error legitimately)
+		return n, true
+	case strings.HasSuffix(n, "proto.Marshal") || strings.HasSuffix(n, "proto.Unmarshal") || strings.HasSuffix(n, "proto.Buffer).Unmarshal"):
+		return n, true
+	case n == "pwr.CompressWire" || n == "pwr.DecompressWire" || n == "pwr.ReadSignature" || n == "pwr.ComputeHashInfo":
+		return n, true
+	case n == "(*os.File).Sync" || n == "(*os.File).Truncate" || n == "(*os.File).Seek" || n == "os.Rename" || n == "github.com/itchio/screw.Rename":
+		return n, true
+	}
+	return "", false
+}
+
+// ruleNoDroppedLayerErrors: every call into the storage / wire / bowl layer that returns an error has that
+// error looked at: the value is used by something (a test, a return, a wrap, a store that is read). A call
+// statement that ignores it, `_ =`, or an assignment that is overwritten before any use all leave the value
+// without a user in SSA form.
+func ruleNoDroppedLayerErrors(c *core.Ctx, rule string, pkgSuffixes ...string) {
+	c.Rule(rule, "no error from the storage / wire / bowl layer is dropped")
+	n := 0
+	for _, fn := range c.P.SrcFuncs() {
+		in := false
+		for _, sfx := range pkgSuffixes {
+			if strings.HasSuffix(core.PkgPathOf(fn), sfx) {
+				in = true
+			}
+		}
+		if !in {
+			continue
+		}
+		core.Instrs(fn, func(ins ssa.Instruction) {
+			cl, ok := ins.(*ssa.Call) // go / defer statements cannot look at results
+			if !ok {
+				return
+			}
+			name, ok := layerCallee(cl)
+			if !ok {
+				return
+			}
+			res := cl.Call.Signature().Results()
+			if res.Len() == 0 || !isErrorType(res.At(res.Len()-1).Type()) {
+				return
+			}
+			n++
+			var errVal ssa.Value
+			if res.Len() == 1 {
+				errVal = cl
+			} else if refs := cl.Referrers(); refs != nil {
+				for _, r := range *refs {
+					if ex, ok := r.(*ssa.Extract); ok && ex.Index == res.Len()-1 {
+						errVal = ex
+					}
+				}
+			}
+			used := false
+			if errVal != nil {
+				if refs := errVal.Referrers(); refs != nil {
+					for _, r := range *refs {
+						if _, isDbg := r.(*ssa.DebugRef); !isDbg {
+							used = true
+						}
+					}
+				}
+			}
+			c.Check(used, rule, core.FnName(fn), "error of "+name+" is looked at", core.InstrPos(ins),
+				"the error value has a user", "the error returned by "+name+" is dropped (ignored, assigned to _, or overwritten before any use): a failed read or write goes unnoticed and what follows works on garbage")
+		})
+	}
+	c.Floor(rule, "calls into the storage / wire / bowl layer that return an error", n, 30)
+}
+
+// ---- append onto an interior sub-slice ---------------------------------------------------------------
+
+// interiorSubslices returns the two-index slice expressions a[lo:hi] with lo > 0 (or not constant) and no
+// capacity limit that can be the destination of the append call c - directly, through phis, or through a map
+// the function keeps such slices in. Appending to one writes into a[hi], which still belongs to whoever
+// holds the rest of a: a neighbour's element is overwritten without any error.
+func interiorSubslices(c *ssa.Call) []*ssa.Slice {
+	if b, ok := c.Call.Value.(*ssa.Builtin); !ok || b.Name() != "append" || len(c.Call.Args) == 0 {
+		return nil
+	}
+	fn := c.Parent()
+	var out []*ssa.Slice
+	seen := map[ssa.Value]bool{}
+	var walk func(v ssa.Value, d int)
+	walk = func(v ssa.Value, d int) {
+		if v == nil || seen[v] || d > 6 {
+			return
+		}
+		seen[v] = true
+		for _, o := range core.Origins(v) {
+			switch x := o.(type) {
+			case *ssa.Slice:
+				if x.Max != nil {
+					continue // capacity limited: append reallocates
+				}
+				if _, isArr := x.X.Type().Underlying().(*types.Pointer); isArr {
+					// slicing an array pointer (make lowered to new [n]T, or a local array)
+					if x.Low == nil {
+						continue
+					}
+				}
+				if x.Low == nil {
+					continue // a prefix a[:n]: the usual reuse-from-the-start idiom
+				}
+				if z, isC := core.ConstInt(x.Low); isC && z == 0 {
+					continue
+				}
+				if x.High == nil {
+					continue // a[lo:]: runs to the end, append reallocates or extends the owner's own tail
+				}
+				out = append(out, x)
+			case *ssa.Lookup:
+				// an element of a map: whatever the function stores into that map
+				core.Instrs(fn, func(in ssa.Instruction) {
+					if mu, ok := in.(*ssa.MapUpdate); ok && (mu.Map == x.X || sameVal(mu.Map, x.X)) {
+						walk(mu.Value, d+1)
+					}
+				})
+			case *ssa.Extract:
+				if lk, ok := x.Tuple.(*ssa.Lookup); ok && x.Index == 0 {
+					core.Instrs(fn, func(in ssa.Instruction) {
+						if mu, ok := in.(*ssa.MapUpdate); ok && (mu.Map == lk.X || sameVal(mu.Map, lk.X)) {
+							walk(mu.Value, d+1)
+						}
+					})
+				}
+			case *ssa.Call:
+				// the result of an earlier append to the same thing
+				if b, ok := x.Call.Value.(*ssa.Builtin); ok && b.Name() == "append" && len(x.Call.Args) > 0 {
+					walk(x.Call.Args[0], d+1)
+				}
+			}
+		}
+	}
+	walk(c.Call.Args[0], 0)
+	return out
+}
+
+// ruleNoAppendToInteriorSubslice applies interiorSubslices to every append of the given packages.
+func ruleNoAppendToInteriorSubslice(c *core.Ctx, rule string, pkgSuffixes ...string) {
+	c.Rule(rule, "no append onto an interior sub-slice of a shared array")
+	n := 0
+	for _, fn := range c.P.SrcFuncs() {
+		in := false
+		for _, sfx := range pkgSuffixes {
+			if strings.HasSuffix(core.PkgPathOf(fn), sfx) {
+				in = true
+			}
+		}
+		if !in {
+			continue
+		}
+		core.Instrs(fn, func(ins ssa.Instruction) {
+			cl, ok := ins.(*ssa.Call)
+			if !ok {
+				return
+			}
+			if b, ok := cl.Call.Value.(*ssa.Builtin); !ok || b.Name() != "append" {
+				return
+			}
+			n++
+			for _, sl := range interiorSubslices(cl) {
+				c.Bad(rule, core.FnName(fn), "append onto "+core.Describe(sl), core.InstrPos(ins),
+					"the destination of this append can be the interior sub-slice "+core.Describe(sl)+" (no capacity limit): the append writes into the next element of the underlying array, which belongs to another holder - its entry is silently overwritten")
+			}
+		})
+	}
+	c.Floor(rule, "append calls in the packages scanned", n, 5)
+}
+
+// ruleNoSwallowedLayerErrors: a failed call into the storage / wire / bowl layer never leads to a successful
+// return of the calling function: every success return is reachable from the call only through the nil
+// outcome of its error (or hands that error on). Tolerated: an explicit comparison of the error with io.EOF
+// on the way (end of input is a normal outcome for readers).
+func ruleNoSwallowedLayerErrors(c *core.Ctx, rule string, extra func(ssa.CallInstruction) (string, bool), pkgSuffixes ...string) {
+	c.Rule(rule, "a failed storage / wire / bowl call never ends in success")
+	n := 0
+	for _, fn := range c.P.SrcFuncs() {
+		in := false
+		for _, sfx := range pkgSuffixes {
+			if strings.HasSuffix(core.PkgPathOf(fn), sfx) {
+				in = true
+			}
+		}
+		if !in {
+			continue
+		}
+		res := fn.Signature.Results()
+		if res.Len() == 0 || !isErrorType(res.At(res.Len()-1).Type()) {
+			continue // nothing to report failure with: R10.err's business
+		}
+		var succ []core.ReturnSite
+		first := true
+		core.Instrs(fn, func(ins ssa.Instruction) {
+			cl, ok := ins.(*ssa.Call)
+			if !ok {
+				return
+			}
+			name, ok := layerCallee(cl)
+			if !ok && extra != nil {
+				name, ok = extra(cl)
+			}
+			if !ok {
+				return
+			}
+			r := cl.Call.Signature().Results()
+			if r.Len() == 0 || !isErrorType(r.At(r.Len()-1).Type()) {
+				return
+			}
+			if first {
+				succ, first = successReturns(fn), false
+			}
+			n++
+			// end of input is not a failure: drop the paths that compare this error with io.EOF
+			isEOFTest := func(x ssa.Instruction) bool {
+				bo, ok := x.(*ssa.BinOp)
+				if !ok || (bo.Op != token.EQL && bo.Op != token.NEQ) {
+					return false
+				}
+				isEOF := func(v ssa.Value) bool {
+					ld, ok := v.(*ssa.UnOp)
+					if !ok || ld.Op != token.MUL {
+						return false
+					}
+					g, ok := ld.X.(*ssa.Global)
+					return ok && (strings.HasSuffix(g.String(), "io.EOF") || strings.HasSuffix(g.String(), "io.ErrUnexpectedEOF"))
+				}
+				return isEOF(bo.X) || isEOF(bo.Y)
+			}
+			if why := swallowException(core.FnName(fn), name); why != "" {
+				c.Ok(rule, core.FnName(fn), "failure of "+name+" does not end in success", core.InstrPos(ins), "confirmed exception: "+why)
+				return
+			}
+			for _, rs := range succ {
+				p := ungatedPath(fn, cl, rs.Ret, isEOFTest)
+				if p != nil {
+					c.Bad(rule, core.FnName(fn), "failure of "+name+" does not end in success", core.InstrPos(ins),
+						"a success return is reachable from this call without its error having been found nil (and without handing it on): the failure is swallowed and the caller goes on with incomplete data").Path = c.P.PathStrings(p)
+					return
+				}
+			}
+			c.Ok(rule, core.FnName(fn), "failure of "+name+" does not end in success", core.InstrPos(ins), "every success return is behind the nil outcome")
+		})
+	}
+	c.Floor(rule, "error-returning layer calls in functions that return an error", n, 30)
+}
+
+// swallowException: the call sites, confirmed by reading, where a failed call legitimately ends in success.
+func swallowException(fn, callee string) string {
+	table := []struct{ fn, callee, why string }{
+		{"(*pwr.ValidatorContext).validate", "lake.Pool.GetReader", "a file that cannot be opened is reported as a whole-file wound, which is the validator's answer, not a failure of validation"},
+		{"(*pwr/bowl.overlayBowl).move", "screw.Rename", "a failed rename falls back to copy + remove"},
+		{"(*wsync.Context).ApplySingleFull", "lake.Pool.GetReadSeeker", "lenient (not fail-fast) application pads the range with zeroes; the patcher only uses the fail-fast entry point"},
+	}
+	for _, e := range table {
+		if strings.HasPrefix(fn, e.fn) && strings.HasSuffix(callee, e.callee) {
+			return e.why
+		}
+	}
+	return ""
 }
